@@ -117,9 +117,11 @@ Lemma sec_ter_ext (rec rec' : str -> str -> res comparison) s1 t1 s2 t2 :
   sec_ter rec s1 t1 s2 t2 = sec_ter rec' s1 t1 s2 t2.
 Proof.
   intros Hs Ht. unfold sec_ter.
-  destruct s1 as [|a s1], s2 as [|b s2], t1 as [|c t1], t2 as [|d t2]; simpl; try reflexivity;
-    try (apply Ht; intuition congruence);
-    (rewrite Hs by congruence; destruct (rec' _ _) as [[| |]|]; try reflexivity; apply Ht; intuition congruence).
+  destruct (nonempty s1) eqn:A, (nonempty s2) eqn:B; cbn [orb andb]; try reflexivity.
+  - apply nonempty_true_iff in A, B. rewrite (Hs A B).
+    destruct (rec' s1 s2) as [[| |]|]; try reflexivity. apply Ht. now left.
+  - destruct (nonempty t1) eqn:C, (nonempty t2) eqn:D; cbn [orb andb]; try reflexivity;
+      apply Ht; right; right; [left; now apply nonempty_true_iff|left; now apply nonempty_true_iff|right; now apply nonempty_true_iff].
 Qed.
 
 Lemma fuel_indep fixed f1 : forall f2 strict v1 v2,
@@ -199,8 +201,10 @@ Proof. reflexivity. Qed.
 Lemma sec_ter_refl (rec : str -> str -> res comparison) s t :
   (s <> [] -> rec s s = Ok Eq) -> rec t t = Ok Eq -> sec_ter rec s t s t = Ok Eq.
 Proof.
-  intros Hs Ht. unfold sec_ter. destruct s as [|a s], t as [|b t]; simpl; auto;
-    rewrite Hs by congruence; auto.
+  intros Hs Ht. unfold sec_ter.
+  destruct (nonempty s) eqn:A; cbn [orb andb].
+  - apply nonempty_true_iff in A. now rewrite (Hs A).
+  - destruct (nonempty t); [assumption|reflexivity].
 Qed.
 
 Lemma scmp_refl_aux fixed n : forall v strict,
@@ -446,10 +450,11 @@ Lemma sec_ter_flip (rec : str -> str -> res comparison) s1 t1 s2 t2 :
   sec_ter rec s2 t2 s1 t1 = flip_res (sec_ter rec s1 t1 s2 t2).
 Proof.
   intros Hs Ht. unfold sec_ter.
-  destruct s1 as [|a s1], s2 as [|b s2], t1 as [|c t1], t2 as [|d t2]; simpl; try reflexivity;
-    try (apply Ht; intuition congruence);
-    (rewrite Hs by congruence; destruct (rec (a :: s1) (b :: s2)) as [[| |]|]; try reflexivity; simpl;
-     apply Ht; intuition congruence).
+  destruct (nonempty s1) eqn:A, (nonempty s2) eqn:B; cbn [orb andb]; try reflexivity.
+  - apply nonempty_true_iff in A, B. rewrite (Hs A B).
+    destruct (rec s1 s2) as [[| |]|]; try reflexivity. cbn [flip_res CompOpp]. apply Ht. now left.
+  - destruct (nonempty t1) eqn:C, (nonempty t2) eqn:D; cbn [orb andb]; try reflexivity;
+      apply Ht; right; right; [left; now apply nonempty_true_iff|left; now apply nonempty_true_iff|right; now apply nonempty_true_iff].
 Qed.
 
 Lemma scmp_flip_aux fixed n : forall v1 v2 strict,
@@ -522,9 +527,11 @@ Lemma sec_ter_defined (rec : str -> str -> res comparison) s1 t1 s2 t2 :
   exists c, sec_ter rec s1 t1 s2 t2 = Ok c.
 Proof.
   intros Hs Ht. unfold sec_ter.
-  destruct s1 as [|a s1], s2 as [|b s2], t1 as [|c t1], t2 as [|d t2]; simpl; eauto;
-    try (apply Ht; intuition congruence);
-    (destruct (Hs ltac:(congruence) ltac:(congruence)) as [[| |] ->]; eauto; apply Ht; intuition congruence).
+  destruct (nonempty s1) eqn:A, (nonempty s2) eqn:B; cbn [orb andb]; try (eexists; reflexivity).
+  - apply nonempty_true_iff in A, B. destruct (Hs A B) as [c ->].
+    destruct c; try (eexists; reflexivity). apply Ht. now left.
+  - destruct (nonempty t1) eqn:C, (nonempty t2) eqn:D; cbn [orb andb]; try (eexists; reflexivity);
+      apply Ht; right; right; [left; now apply nonempty_true_iff|left; now apply nonempty_true_iff|right; now apply nonempty_true_iff].
 Qed.
 
 Lemma scmp_defined_aux fixed n : forall v1 v2 strict,
